@@ -11,6 +11,7 @@ def run(ctx):
     ctx.rule("R-EXPIRY-SHAPE", "expiry: abort(TIMEOUT) in the right direction iff destination-specific, session removed", floor=10)
     ctx.rule("R-REARM", "every expiry path deletes the session or re-arms it in the future", floor=16)
     ctx.rule("R-WAKE", "a new/immediate deadline wakes the job thread", floor=10)
+    ctx.rule("R-WAKEUP-MIN", "the job pass keeps the earliest session deadline as its next wake-up (timeouts are served on time)", floor=8)
     ctx.rule("R-REFUSE", "the pair / pool becomes usable again: refusal condition is exactly busy / exhausted", floor=5)
     for fd in (False, True):
         L = T.Layer(ctx, fd=fd)
@@ -21,4 +22,5 @@ def run(ctx):
         TM.rearm(ctx, L)
         TM.wake(ctx, L)
         T.refuse(ctx, L)
+        TM.wakeup_min(ctx, L.job, tag=L.tag + " ")
     return "loss/timeout clauses of C06 decided on both data link layers"
